@@ -22,7 +22,8 @@ template class amc::vec::StdVectorBase<ElemNR, amc::allocator<ElemNR>, uint8_t>;
 template class amc::vec::DynamicVector<ElemNR, amc::allocator<ElemNR>, uint8_t, false>;
 template class amc::vec::VectorImpl<ElemNR, amc::allocator<ElemNR>, uint8_t, false, DynamicGrowingPolicy>;
 template class amc::Vector<ElemNR, amc::allocator<ElemNR>, uint8_t, DynamicGrowingPolicy, 0>;
-template class amc::FlatSet<ElemNR, GhostCmp, amc::allocator<ElemNR>, Vec8>;
+// (spelled out: the type name written here is the one the compiler prints for the injected class name)
+template class amc::FlatSet<ElemNR, GhostCmp, amc::allocator<ElemNR>, amc::Vector<ElemNR, amc::allocator<ElemNR>, uint8_t, amc::vec::DynamicGrowingPolicy, 0>>;
 
 using FS = amc::FlatSet<ElemNR, GhostCmp>;
 void use_flatset(FS &s, FS &o, const ElemNR &e, ElemNR &&r, const ElemNR *f, const ElemNR *l, FS::node_type &&nh, amc::FlatSet<ElemNR, GhostCmp2> &o2) {
